@@ -41,7 +41,7 @@
 (*                        reset 633                                        *)
 (*   applying a conf     raftsim ready() -> rawnode.go ApplyConfChange     *)
 (*   change               104-107 -> raft.go applyConfChange 1637-1657,    *)
-(*                        switchToConfig 1665-1718 (a leader that removed  *)
+(*                        switchToConfig 1665-1717 (a leader that removed  *)
 (*                        itself stays leader, without Progress;           *)
 (*                        maybeCommit / bcastAppend or probes under the    *)
 (*                        new configuration); confchange/confchange.go     *)
@@ -122,7 +122,7 @@ CONSTANTS Server,            \* 1..N, N >= 2
           MaxConfRefusals,          \* conf changes a leader refuses because another one may be unapplied (appended as empty entries)
           W_ConfChangeNoPendingCheck, \* raft.go stepLeader MsgProp 1060-1075: the `alreadyPending` refusal removed, i.e. a conf change
                                     \* is appended although an earlier one may still be unapplied
-          W_AddedVoterCaughtUp      \* confchange/confchange.go initProgress 262-264: the Progress of a newly added voter starts
+          W_AddedVoterCaughtUp      \* confchange/confchange.go initProgress 266-267: the Progress of a newly added voter starts
                                     \* with Match = LastIndex (instead of 0), i.e. it counts as having acknowledged the leader's log
 
 ASSUME Cardinality(Server) >= 2
@@ -233,7 +233,7 @@ Bcast(i, lg, cmt, tm, P, V) ==
     IN [P |-> [j \in Server |-> IF j \in V \ {i} THEN R[j].p ELSE P[j]],
         m |-> Concat([j \in V \ {i} |-> R[j].m], V \ {i})]
 
-(* switchToConfig 1706-1711: maybeSendAppend(id, false) to every peer of the configuration *)
+(* switchToConfig 1704-1709: maybeSendAppend(id, false) to every peer of the configuration *)
 SendPending(i, lg, cmt, tm, P, V) ==
     LET R == [j \in V \ {i} |-> MaybeSendApp(i, lg, cmt, tm, P[j], j, FALSE)]
     IN [P |-> [j \in Server |-> IF j \in V \ {i} THEN R[j].p ELSE P[j]],
@@ -270,7 +270,7 @@ AckOK(i, j, idx, lg, cmt, tm, P, V) ==
 (* c = -j EntryConfChange{ConfChangeRemoveNode, j}.                                                                   *)
 (* confchange.go Simple 132-149 / apply 154-178 for one change: makeVoter 182-193 (a voter that is already there      *)
 (* stays), remove 235-248 (an absent id: nothing); "removed all voters" 174-176 is an error: applyConfChange panics    *)
-(* before it switches (raft.go 1652-1655), raftsim's applyCC treats that as "the application rejects the change" and   *)
+(* before it switches (raft.go 1651-1654), raftsim's applyCC treats that as "the application rejects the change" and   *)
 (* the configuration stays.                                                                                            *)
 CCRejected(V, c) == c < 0 /\ V \ {-c} = {}
 ApplyCC(V, c) == IF c = 0 \/ CCRejected(V, c) THEN V ELSE IF c > 0 THEN V \cup {c} ELSE V \ {-c}
@@ -287,11 +287,11 @@ ConfAt(lg, c) == ConfFold(InitVoters, lg, 1, c)
 
 (* The leader's Ready cycle after its commit index moved from `done` to a.c (a = [P, c, m] as returned by AckOK):      *)
 (* every conf change in the newly committed entries is applied in index order (raftsim ready(): ApplyConfChange ->     *)
-(* applyConfChange 1637-1657 -> switchToConfig 1665-1718).  On the leader: a new voter gets Progress{Match 0, Next =    *)
+(* applyConfChange 1637-1657 -> switchToConfig 1665-1717).  On the leader: a new voter gets Progress{Match 0, Next =    *)
 (* LastIndex, StateProbe} (confchange.go initProgress 251-277; LastIndex = raftLog.lastIndex() at apply time, 1641),   *)
 (* a removed one loses it; if the leader itself is gone it just carries on as leader without Progress (1677-1688);     *)
-(* otherwise maybeCommit under the NEW configuration and bcastAppend (1699-1702), or else maybeSendAppend(id, false)   *)
-(* to every peer (1703-1711).  What that commits is applied by the next round of the same Ready loop.                  *)
+(* otherwise maybeCommit under the NEW configuration and bcastAppend (1696-1700), or else maybeSendAppend(id, false)   *)
+(* to every peer (1701-1710).  What that commits is applied by the next round of the same Ready loop.                  *)
 RECURSIVE LeaderApplyFrom(_, _, _, _, _, _, _, _)
 LeaderApplyFrom(i, lg, tm, k, cmt, P, V, ms) ==
     IF k > cmt THEN [P |-> P, c |-> cmt, m |-> ms, V |-> V]
